@@ -835,16 +835,19 @@ def gen_nodefail(rng, clean, mounts=None):
     sc.emit("nodefail 1", exp, "will-on-node-failure")
     for w in watchers:
         sc.ops.append(f"ackall {w}")
-    # the failed peer's subscriptions are gone at once, its session records after the 3 s grace period
+    # the failed peer's subscriptions are gone at once, its session records after the 3 s grace period — on every
+    # survivor by its own doing (before the survivors' broadcasts reach one another), and still after they have
     sc.ops.append("idle 3200")
-    sc.ops.append("gossip")
-    for n in range(nn):
-        if n != 1:
-            ss = sorted(f"S,S{c_},{cv['cid']},{cv['mount']},{cv['node'] + 1},{sc._will(cv)}" for c_, cv in sc.clients.items() if cv["alive"])
-            us = sorted(f"U,S{c_},{cv['mount']}/{f},{cv['node'] + 1},{q}" for c_, cv in sc.clients.items() if cv["alive"] for f, q in cv["subs"].items())
-            reg = sorted("S" + c_ for c_, cv in sc.clients.items() if cv["alive"] and cv["node"] == n)
-            sc.ops.append(f"state {n}")
-            sc.exp[len(sc.ops) - 1] = ("[" + " ".join(ss) + "] [" + " ".join(us) + "] [] [" + " ".join(reg) + "]", "traces-of-failed-node")
+    for phase in ("own", "gossip"):
+        if phase == "gossip":
+            sc.ops.append("gossip")
+        for n in range(nn):
+            if n != 1:
+                ss = sorted(f"S,S{c_},{cv['cid']},{cv['mount']},{cv['node'] + 1},{sc._will(cv)}" for c_, cv in sc.clients.items() if cv["alive"])
+                us = sorted(f"U,S{c_},{cv['mount']}/{f},{cv['node'] + 1},{q}" for c_, cv in sc.clients.items() if cv["alive"] for f, q in cv["subs"].items())
+                reg = sorted("S" + c_ for c_, cv in sc.clients.items() if cv["alive"] and cv["node"] == n)
+                sc.ops.append(f"state {n}")
+                sc.exp[len(sc.ops) - 1] = ("[" + " ".join(ss) + "] [" + " ".join(us) + "] [] [" + " ".join(reg) + "]", "traces-of-failed-node")
     return sc
 
 
